@@ -964,8 +964,14 @@ class TensorDict(TensorDictBase):
                     dim = -1
                     keepdim = False
                 elif isinstance(dim, tuple):
+                    # dims index the batch dims, as in the reduce=False branch
+                    dim = tuple(
+                        _maybe_correct_neg_dim(d, None, self.batch_dims) for d in dim
+                    )
                     cat_dim = dim[0]
                 else:
+                    if dim is not None:
+                        dim = _maybe_correct_neg_dim(dim, None, self.batch_dims)
                     cat_dim = dim
                 agglomerate = torch.cat(agglomerate, dim=cat_dim)
                 kwargs = {}
